@@ -1,7 +1,7 @@
 """C04 — conv-probe property (see vlib/props/convprops.py)."""
 from vlib.props import convprops as P, convcommon as cc
 from vlib import convgen as g
-globals().update(P.make('C04', 'conv probe: generic sweep (every letter of the command alphabet after 12 prefixes x configurations incl. TLS), random walks under {one segment, line per segment, byte per segment, random cuts}; the whole reply stream is parsed with a strict RFC 5321 recogniser, codes and enhanced codes compared exactly with the model. non-trivial = at least one backend callback', ['C04_own_verdict', 'C04_reply_syntax', 'C04_reply_syntax_multiline', 'C04_one_reply_per_command', 'C04_error_reply_and_notice', 'C04_lmtp_one_reply_per_recipient', 'C04_starttls_replies'], None, lambda a: cc.project(a, codes='exact', enh=True, drecs='ret'), tls=True, configs=None))
+globals().update(P.make('C04', 'conv probe: generic sweep (every letter of the command alphabet after 12 prefixes x configurations incl. TLS), random walks under {one segment, line per segment, byte per segment, random cuts}; the whole reply stream is parsed with a strict RFC 5321 recogniser, codes and enhanced codes compared exactly with the model. non-trivial = at least one backend callback', ['C04_own_verdict', 'C04_reply_syntax', 'C04_reply_syntax_multiline', 'C04_one_reply_per_command', 'C04_error_reply_and_notice', 'C04_lmtp_one_reply_per_recipient', 'C04_starttls_replies', 'C04_auth_replies'], None, lambda a: cc.project(a, codes='exact', enh=True, drecs='ret'), tls=True, configs=None))
 
 # --- schedules: a slow delivery of an aborted transfer completing before/after the next transaction -------------
 from vlib.core import Group as _Group
